@@ -218,6 +218,10 @@ pub enum Step {
     /// drop the lab's own clone of the shared descriptor of stream `res`
     DropHandle { res: u16 },
     DropDriver,
+    /// `Proactor::flush()`: hand queued submissions to the kernel without reaping completions
+    Flush,
+    /// `Proactor::waker().wake()` from the lab thread
+    Wake,
 }
 
 #[derive(Debug, Clone, Serialize, Deserialize)]
@@ -1039,8 +1043,12 @@ impl Lab {
 
     /// What a future's poll does: look for the result first, register the waker only if there is none.
     fn set_waker(&mut self, i: usize) -> R<()> {
-        if self.p.is_none() || self.ops[i].st != St::Pending || self.ops[i].waker.is_some() {
+        if self.p.is_none() || self.ops[i].st != St::Pending {
             return Ok(());
+        }
+        if self.ops[i].waker.is_some() {
+            // polled again from another task context: the newest waker is the one that must be woken
+            self.label("waker-replaced");
         }
         if self.pop(i)? {
             return Ok(());
@@ -1240,6 +1248,37 @@ impl Lab {
                 } else {
                     return Err(Outcome::inconclusive("op left waiting (judged by the C02 check)"));
                 }
+            }
+        }
+        Ok(())
+    }
+
+    /// The driver must still be wakeable from another thread while it blocks (C02: "the waiting task is
+    /// woken"): a wake issued while `poll` sleeps has to end that sleep.  Two consecutive misses count.
+    fn wake_probe(&mut self) -> R<()> {
+        if self.mode != Mode::C02 || self.p.is_none() {
+            return Ok(());
+        }
+        let drv = if self.iour { "iour" } else { "poll" };
+        for attempt in 0..2 {
+            let w = self.p.as_ref().unwrap().waker();
+            let t = std::thread::spawn(move || {
+                std::thread::sleep(Duration::from_millis(15));
+                w.wake();
+            });
+            let t0 = Instant::now();
+            let p = self.p.as_mut().unwrap();
+            let _ = p.poll(Some(Duration::from_secs(6)));
+            let took = t0.elapsed();
+            let _ = t.join();
+            if took < Duration::from_secs(3) {
+                self.label("wake-probe-ok");
+                return Ok(());
+            }
+            // consume the notification that the missed wake left behind, so the second attempt really blocks
+            let _ = self.p.as_mut().unwrap().poll(Some(Duration::ZERO));
+            if attempt == 1 {
+                vio!(self, format!("driver-not-wakeable/{drv}"), "a wake-up from another thread did not end a blocking poll (slept {took:?} of a 6 s timeout, twice): the driver can no longer be woken");
             }
         }
         Ok(())
@@ -1533,7 +1572,7 @@ fn run_timed(case: &Case, mode: Mode) -> Outcome {
         },
     };
     let _ = std::fs::remove_file(path);
-    if std::env::var("VERIF_DUMP_LOG").is_ok() && result.is_violation() {
+    if (std::env::var("VERIF_DUMP_LOG").is_ok() && result.is_violation()) || std::env::var("VERIF_DUMP_ALWAYS").is_ok() {
         for (i, it) in log_since(0).iter().enumerate() {
             eprintln!("  log[{i}] {it:?}");
         }
@@ -1585,6 +1624,18 @@ fn run_inner(lab: &mut Lab, case: &Case) -> R<()> {
             }
             Step::DropHandle { res } => lab.drop_handle(res),
             Step::DropDriver => lab.drop_driver(),
+            Step::Flush => {
+                if let Some(p) = lab.p.as_mut() {
+                    p.flush();
+                    lab.label("flush");
+                }
+            }
+            Step::Wake => {
+                if let Some(p) = lab.p.as_ref() {
+                    p.waker().wake();
+                    lab.label("wake");
+                }
+            }
         }
     }
     Ok(())
@@ -1648,6 +1699,7 @@ fn finish(lab: &mut Lab) -> R<()> {
         lab.settle_cancels()?;
         lab.supply_all()?;
         lab.quiesce()?;
+        lab.wake_probe()?;
         lab.check_streams()?;
     } else {
         // driver already gone: still supply everything, the kernel / pool must not touch freed memory
@@ -1727,7 +1779,7 @@ fn step_strategy(mode: Mode) -> SBoxedStrategy<Step> {
     let tok2 = any::<u16>().prop_map(|op| Step::CancelTwice { op });
     let dh = any::<u16>().prop_map(|res| Step::DropHandle { res });
     let harness = prop_oneof![6 => feed, 1 => close, 2 => Just(Step::Connect), 2 => gate];
-    let observe = prop_oneof![5 => poll, 4 => pop, 1 => popm, 2 => wk];
+    let observe = prop_oneof![5 => poll, 4 => pop, 1 => popm, 2 => wk, 1 => Just(Step::Flush), 1 => Just(Step::Wake)];
     match mode {
         Mode::C02 => prop_oneof![8 => submit, 11 => harness, 12 => observe].sboxed(),
         Mode::C05 => prop_oneof![8 => submit, 7 => harness, 9 => observe, 3 => cancel, 4 => tok, 2 => tok2].sboxed(),
@@ -1752,6 +1804,28 @@ pub fn regressions(mode: Mode) -> Vec<(&'static str, Case)> {
                 ));
                 // former finding (fixed 433735c): with SQ capacity 1 the second AsyncCancel was dropped, so the
                 // second multishot accept never finished
+                // a wake-up while the completion queue overflows ends the notifier's multishot poll
+                // without an error: the driver must re-arm it (judged by the wake probe)
+                v.push((
+                    "wake-during-cq-overflow-burst",
+                    Case {
+                        iour,
+                        cap_ix: 0,
+                        pool_ix: 0,
+                        steps: vec![
+                            Step::Poll { block: false },
+                            recv(0),
+                            recv(40000),
+                            Step::Submit { kind: Kind::ReadPipe, res: 0, cap: 30000 },
+                            Step::Flush,
+                            Step::Feed { res: 0, n: 20000 },
+                            Step::Feed { res: 30000, n: 20000 },
+                            Step::Feed { res: 60000, n: 20000 },
+                            Step::Wake,
+                            Step::Poll { block: false },
+                        ],
+                    },
+                ));
                 v.push(("two-accept-multi-capacity-1", Case { iour, cap_ix: 0, pool_ix: 0, steps: vec![sub(Kind::AcceptMulti), sub(Kind::AcceptMulti), Step::Connect] }));
             }
         }
